@@ -9,6 +9,7 @@ func init() {
 			"round trips are asserted for W3C token keys only (Baggage.String documents that members and properties with other keys are skipped)",
 			"which headers Parse must accept is taken from the W3C baggage grammar (token keys, baggage-octet values with well-formed %XX triplets, OWS around = ; ,) within 180 list-members / 8192 bytes / 4096 bytes per list-member; headers outside the grammar may be accepted or rejected",
 			"a run of percent-decoded bytes that is not UTF-8 must come out as U+FFFD; how many replacement characters a run yields is not asserted",
+			"NewMember / NewKeyValueProperty must accept a token key with a well-formed percent-encoding of valid UTF-8 (any mix of escaped and literal baggage-octets, either hex case) and then equal the Raw-built value; for any other text they may return an error or a value, but never a value that is not valid UTF-8, and what they hand out must round-trip like any other member",
 			"New may reject only if, measured on the Member.String() the implementation emits, a limit (180 distinct keys, 4096 bytes per member, 8192 bytes joined by commas) is exceeded; SetMember enforces no limits and none is asserted on it",
 		))
 }
